@@ -55,7 +55,7 @@ EDIT_TARGETS = {"pheno_real": ("WGT", "V", "S1"), "mox2": ("WT", "VC", "KA"),
                 "pheno_advan3": ("WGT", "V", "S1"), "pheno_advan4": ("WGT", "V", "S1")}
 
 TIERS = {
-    "quick": dict(edges=200, walks=40, walk_len=5, rw_every=6, roundtrip=150, row_depth=2),
+    "quick": dict(edges=160, walks=32, walk_len=5, rw_every=6, roundtrip=150, row_depth=1),
     "thorough": dict(edges=3000, walks=800, walk_len=6, rw_every=4, roundtrip=1500, row_depth=4),
 }
 _MODELS: dict = {}
@@ -674,9 +674,12 @@ def roundtrip(model, seed):
                     continue
                 for fld in ("lag", "bio"):
                     if ca[fld] is not None and cb[fld] is not None and ca[fld] != cb[fld]:
-                        out.append(("rw_" + fld, f"compartment {k} {fld}: {ca[fld]} -> {cb[fld]}"))
-                if [x[0] for x in ca["doses"]] != [x[0] for x in cb["doses"]]:
-                    out.append(("rw_dose", f"compartment {k} doses {ca['doses']} -> {cb['doses']}"))
+                        neutral = [0, 1] if fld == "lag" else [1, 1]
+                        cls = "code_only" if ca[fld] == neutral else ("model_only" if cb[fld] == neutral else "both")
+                        out.append((f"rw_{fld}:{cls}", f"compartment {k} {fld}: {ca[fld]} in the model -> {cb[fld]} after write/read"))
+                ka, kb = [x[0] for x in ca["doses"]], [x[0] for x in cb["doses"]]
+                if ka != kb:
+                    out.append((f"rw_dose:{'+'.join(ka) or 'none'}->{'+'.join(kb) or 'none'}", f"compartment {k} doses {ca['doses']} -> {cb['doses']}"))
         for name in ("F", "Y", "IPRED"):
             va, vb = ea["vars"].get(name), eb["vars"].get(name)
             if va is not None and vb is not None and va != vb and abs(va[0] / va[1] - vb[0] / vb[1]) > 1e-9 * max(1.0, abs(va[0] / va[1])):
